@@ -449,4 +449,5 @@ def coverage(specs, results):
 
 
 if __name__ == "__main__":
+    qamp.selftest()
     sys.exit(main_for(sys.modules[__name__]))
